@@ -30,6 +30,9 @@ def run(run_, tier):
     # collation of parallel outputs in chain order for every worker pickup / completion order (A14 model)
     from . import c14
     c14.parallel(run_, it, prop="C13")
+    # ... and with a worker (or every worker) interrupted: the states returned are those of the chains that were sampled, in chain order, so that
+    # final_states[i] stays the state after the last recorded iteration of chain i (the C15 scenarios of the same harness)
+    c14.parallel(run_, it, prop="C15")
     run_.extraction_drops.extend(sorted(it.dropped))
     run_.notes.append(f"paths explored: {it.paths}")
 
